@@ -524,32 +524,48 @@ func runC04(c *Ctx) {
 		Run: func(idx []int) (string, *ev.Fail) {
 			b := corpus[idx[0]].Build()
 			defer runtime.KeepAlive(b)
+			guard := readOnlyGuard("iterator", b.B, b.M)
 			n, f := drains(b.B, b.M)
 			atomic.AddInt64(&evals, int64(n))
+			if f == nil {
+				f = guard()
+			}
 			return fmt.Sprint(n), f
 		}, Describe: func(idx []int) any { return corpus[idx[0]].Name }}
 	p2 := &explore.Product{Name: fmt.Sprintf("NextMany size sequences <= %d", mdepth), Dims: []int{len(corpus)}, Deadline: c.Budget(60, 1000),
 		Run: func(idx []int) (string, *ev.Fail) {
 			b := corpus[idx[0]].Build()
 			defer runtime.KeepAlive(b)
+			guard := readOnlyGuard("iterator", b.B, b.M)
 			n, f := manyProtocol(b.B, b.M, mdepth)
 			atomic.AddInt64(&evals, int64(n))
+			if f == nil {
+				f = guard()
+			}
 			return fmt.Sprint(n), f
 		}, Describe: func(idx []int) any { return corpus[idx[0]].Name }}
 	p3 := &explore.Product{Name: fmt.Sprintf("Iterator call sequences <= %d", depth), Dims: []int{len(corpus)}, Deadline: c.Budget(85, 1300),
 		Run: func(idx []int) (string, *ev.Fail) {
 			b := corpus[idx[0]].Build()
 			defer runtime.KeepAlive(b)
+			guard := readOnlyGuard("iterator", b.B, b.M)
 			n, f := peekMachine("Iterator", func() roaring.IntPeekable { return b.B.Iterator() }, b.M.Slice(), advArgs(b.M, 6), depth)
 			atomic.AddInt64(&evals, int64(n))
+			if f == nil {
+				f = guard()
+			}
 			return fmt.Sprint(n), f
 		}, Describe: func(idx []int) any { return corpus[idx[0]].Name }}
 	p4 := &explore.Product{Name: "UnsetIterator windows + call sequences", Dims: []int{len(small)}, Deadline: c.Budget(115, 1700),
 		Run: func(idx []int) (string, *ev.Fail) {
 			b := small[idx[0]].Build()
 			defer runtime.KeepAlive(b)
+			guard := readOnlyGuard("iterator", b.B, b.M)
 			n, f := unsetChecks(b.B, b.M, depth-1)
 			atomic.AddInt64(&evals, int64(n))
+			if f == nil {
+				f = guard()
+			}
 			return fmt.Sprint(n), f
 		}, Describe: func(idx []int) any { return small[idx[0]].Name }}
 	runScenarios(c, p1, p2, p3, p4)
